@@ -1,7 +1,7 @@
 (* C15 - Command coverage is the segment-prefix partial order.
    Statements only; every proof is [exact] of a lemma from CommandProofs. *)
 From Coq Require Import String.
-Require Import Base Command CommandProofs.
+Require Import Base Utf8 Utf8Proofs Command CommandProofs.
 Local Open Scope N_scope.
 
 Theorem C15_covers_iff_segment_prefix : forall c o, leading c -> leading o ->
@@ -63,3 +63,15 @@ Example C15_unicode_case :
   is_ok (parse [47; 195; 169]) = true /\ is_ok (parse [47; 195; 137]) = false /\ is_ok (parse [47; 199; 133]) = false /\
   is_ok (parse [47; 226; 133; 163]) = false /\ is_ok (parse [47; 255]) = false /\ is_ok (parse [47; 195]) = false.
 Proof. vm_compute. repeat split. Qed.
+
+(* the code points Parse looks at are the standard ones: the decoder of Utf8.v reads back the UTF-8 encoding of
+   every sequence of Unicode scalar values, and accepts nothing else (no overlong form, no surrogate, nothing
+   above U+10FFFF) *)
+Theorem C15_utf8_decoder_reads_the_standard_encoding : forall rs, Forall scalar rs -> runes (concat (map utf8_encode rs)) = Some rs.
+Proof. exact runes_encode. Qed.
+Print Assumptions C15_utf8_decoder_reads_the_standard_encoding.
+
+Theorem C15_utf8_decoder_accepts_only_the_standard_encoding : forall s r rest,
+  Forall (fun b => b < 256) s -> decode1 s = Some (r, rest) -> scalar r /\ s = utf8_encode r ++ rest.
+Proof. exact decode1_canonical. Qed.
+Print Assumptions C15_utf8_decoder_accepts_only_the_standard_encoding.
